@@ -19,6 +19,30 @@ from lib import vlib
 LINE = re.compile(r'^(\d+)\s+(\w+)\((.*)\)\s+=\s+(0x[0-9a-f]+|-?\d+)(.*)$')
 
 
+def strace_lines(path):
+    """Complete system call lines of an strace -f log: a call split into
+    `... <unfinished ...>` / `<... call resumed> ...` (another thread's call was
+    reported in between) is put together again, at the position where it
+    finished. A buffer mapping call that still cannot be parsed is a tool error,
+    never a silently dropped event."""
+    pending = {}
+    for raw in open(path):
+        line = raw.rstrip("\n")
+        m = re.match(r'^(\d+)\s+(.*) <unfinished \.\.\.>$', line)
+        if m:
+            pending[m.group(1)] = m.group(2)
+            continue
+        m = re.match(r'^(\d+)\s+<\.\.\. (\w+) resumed>(.*)$', line)
+        if m:
+            head = pending.pop(m.group(1), None)
+            if head is None:
+                raise vlib.ToolError(f"strace log {path}: resumed call without a start: {line}")
+            line = f"{m.group(1)} {head}{m.group(3)}"
+        if not LINE.match(line.strip()) and re.match(r'^\d+\s+(mmap|munmap|openat|close|ftruncate)\(', line):
+            raise vlib.ToolError(f"strace log {path}: cannot parse {line!r}")
+        yield line
+
+
 def gen_script(rnd, nops, threads, big=False, alias_all=False):
     ops, live, slot = [[0, "mark", 0]], [], 0
     for _ in range(nops):
@@ -67,7 +91,7 @@ def project(strace_path, out_events, tf):
     evs = []
     inside = False
     base_fds = marks.get(0, {}).get("fds", 0)
-    for line in open(strace_path):
+    for line in strace_lines(strace_path):
         m = LINE.match(line.strip())
         if not m:
             continue
@@ -184,7 +208,7 @@ def shared_mmaps(st):
     """(ordinal among the main thread's mmap calls, fixed?, injected?) of every
     buffer mapping call (MAP_SHARED with a descriptor) in a strace log."""
     out, n, main = [], 0, None
-    for line in open(st):
+    for line in strace_lines(st):
         m = LINE.match(line.strip())
         if not m:
             continue
